@@ -31,7 +31,10 @@ type EP struct {
 	RepIn      []int    `json:"rep_in"`      // per transaction: the last input is replicated until there are this many (0 = leave)
 	RepOut     []int    `json:"rep_out"`     // same for outputs
 	RepTx      int      `json:"rep_tx"`      // the last transaction is replicated until the list has this many (0 = leave)
-	Mut        string   `json:"mut"`         // none | widen | truncate | bitflip | byteset
+	Mut        string   `json:"mut"`         // none | widen | truncate | bitflip | byteset | claim
+	Claim      uint64   `json:"claim,omitempty"`      // claim: varint site Site of transaction WTx announces this value (even Site: a count site)
+	ListClaim  uint64   `json:"list_claim,omitempty"` // != 0: the list count announces this value (count_delta unused)
+	ElemExt    []bool   `json:"elem_ext,omitempty"`   // formats in which the reused element receiver decodes the inputs one after the other (cycled)
 	WTx        int      `json:"wtx"`         // widen: which transaction
 	Site       int      `json:"site"`        // widen: which varint site of it
 	Width      int      `json:"width"`       // widen: 3, 5 or 9
@@ -160,10 +163,20 @@ func checkEP(ctx *pbt.Ctx, c EP) error {
 			cat = append(cat, ref.EncodeWidths(m, exts[i], ref.Widths{c.Site % ref.VarintSites(m, exts[i]): c.Width})...)
 			continue
 		}
+		if c.Mut == "claim" && i == c.WTx%nTx {
+			_, counts := encodeClaims(m, exts[i], nil)
+			site := counts[(c.Site/2)%len(counts)]
+			if c.Site%2 == 1 {
+				site = c.Site % ref.VarintSites(m, exts[i])
+			}
+			b, _ := encodeClaims(m, exts[i], map[int]uint64{site: c.Claim})
+			cat = append(cat, b...)
+			continue
+		}
 		cat = append(cat, ref.Encode(m, exts[i])...)
 	}
 	switch c.Mut {
-	case "none", "widen":
+	case "none", "widen", "claim":
 	case "truncate":
 		cat = cat[:c.Pos%len(cat)]
 	case "bitflip":
@@ -176,27 +189,17 @@ func checkEP(ctx *pbt.Ctx, c EP) error {
 		return nil
 	}
 	data := append(append([]byte{}, cat...), c.Trailing...)
-	claimed := nTx + c.CountDelta
-	prefix := ref.VarIntWidth(uint64(claimed), c.CountWidth)
+	announce := uint64(nTx + c.CountDelta)
+	if c.ListClaim != 0 {
+		announce = c.ListClaim
+	}
+	prefix := ref.VarIntWidth(announce, c.CountWidth)
 	block := append(append([]byte{}, prefix...), data...)
 
+	// the reference decoder never allocates from an announced count or length (it
+	// walks the bytes that are there), so nothing is discarded however much a damaged
+	// or lying field announces (round 5; a library panic still counts as "rejected")
 	items := refSequence(data, nTx+2)
-	if c.Mut == "truncate" || c.Mut == "bitflip" || c.Mut == "byteset" {
-		// a damaged length/count field may announce 2^31 or more: how decoders cope with
-		// that is C09's question (an unrepaired decoder can exhaust memory), as in "bytes"
-		end := 0
-		for _, it := range items {
-			if maxClaim(data[it.off:]) >= 1<<31 {
-				ctx.Discard("a length/count field announces 2^31 or more (left to C09)")
-				return nil
-			}
-			end = it.off + it.d.Consumed
-		}
-		if maxClaim(data[end:]) >= 1<<31 {
-			ctx.Discard("a length/count field announces 2^31 or more (left to C09)")
-			return nil
-		}
-	}
 
 	ctx.Label("mut=" + c.Mut)
 	ctx.Label("ntx=" + cls(nTx))
@@ -211,6 +214,23 @@ func checkEP(ctx *pbt.Ctx, c EP) error {
 	}
 	ctx.Label("max-nin=" + cls(maxIn))
 	ctx.Label("max-nout=" + cls(maxOut))
+	if c.ListClaim != 0 {
+		ctx.Label("list-count-lies")
+		if c.ListClaim >= 1<<63 {
+			ctx.Label("list-count>=2^63")
+		}
+	}
+	if c.Mut == "claim" {
+		switch {
+		case c.Claim >= 1<<63:
+			ctx.Label("claim>=2^63")
+		case c.Claim >= 1<<31:
+			ctx.Label("claim>=2^31")
+		}
+		if c.Site%2 == 0 {
+			ctx.Label("claim-at-count-site")
+		}
+	}
 	ctx.Labelf("count-delta=%d", c.CountDelta)
 	ctx.Labelf("count-width=%d", len(prefix))
 	if len(c.Trailing) > 0 {
@@ -392,8 +412,15 @@ func checkEP(ctx *pbt.Ctx, c EP) error {
 			return nil, n, err
 		})
 		nr, err := g.used, g.err
-		shouldAccept := accepted >= claimed
-		what := fmt.Sprintf("(*Txs).ReadFrom into a list of %d on %s (count prefix %x announces %d, %d encoded)", c.DirtyList, k.name, prefix, claimed, nTx)
+		if accepted >= nTx+2 && announce > uint64(accepted) {
+			break // more transactions in the bytes than were looked at: no expectation
+		}
+		shouldAccept := uint64(accepted) >= announce
+		claimed := 0
+		if shouldAccept {
+			claimed = int(announce) // <= accepted <= nTx+2
+		}
+		what := fmt.Sprintf("(*Txs).ReadFrom into a list of %d on %s (count prefix %x announces %d, %d encoded)", c.DirtyList, k.name, prefix, announce, nTx)
 		if (err == nil) != shouldAccept {
 			return fmt.Errorf("%s: err=%v, but NewTxFromStream accepts %d transactions one after the other: the entry points disagree on %s", what, err, accepted, head(data))
 		}
@@ -426,6 +453,11 @@ func checkEP(ctx *pbt.Ctx, c EP) error {
 		}
 	}
 
+	// ---- E: the element-level decoders (Input.ReadFrom / ReadFromExtended / Output.ReadFrom) ----
+	if err := checkElements(ctx, c); err != nil {
+		return err
+	}
+
 	// ---- retained objects: looked at again only now ----
 	for _, h := range out {
 		if err := verify("after the last call, "+h.what, h.tx, h.item); err != nil {
@@ -433,6 +465,179 @@ func checkEP(ctx *pbt.Ctx, c EP) error {
 		}
 	}
 	ctx.Labelf("objects-retained=%s", cls(len(out)))
+	return nil
+}
+
+// refInput / refOutput are the reference encodings of one element (cut out of the
+// reference encoding of a transaction that holds just that element).
+func refInput(in ref.In, ext bool) []byte {
+	b := ref.Encode(ref.Tx{In: []ref.In{in}}, ext)
+	from := 4 + 1
+	if ext {
+		from += 6
+	}
+	return b[from : len(b)-1-4]
+}
+
+func refOutput(o ref.Out) []byte {
+	b := ref.Encode(ref.Tx{Out: []ref.Out{o}}, false)
+	return b[4+1+1 : len(b)-4]
+}
+
+// inputIs compares a decoded input with the model field by field. A standard-format
+// decode carries no previous output: value 0, script absent (nil or empty).
+func inputIs(what string, got *bt.Input, want ref.In, ext bool) error {
+	g := ref.FromLib(&bt.Tx{Inputs: []*bt.Input{got}}).In[0]
+	w := want
+	if !ext {
+		w.PrevSats, w.PrevScript = 0, nil
+	}
+	switch {
+	case !bytes.Equal(g.TxID, w.TxID):
+		return fmt.Errorf("%s: txid %x, encoded %x", what, g.TxID, w.TxID)
+	case g.Vout != w.Vout:
+		return fmt.Errorf("%s: vout %d, encoded %d", what, g.Vout, w.Vout)
+	case g.Seq != w.Seq:
+		return fmt.Errorf("%s: sequence %d, encoded %d", what, g.Seq, w.Seq)
+	case !bytes.Equal(g.Unlock, w.Unlock):
+		return fmt.Errorf("%s: unlocking script %s, encoded %s", what, head(g.Unlock), head(w.Unlock))
+	case g.PrevSats != w.PrevSats:
+		return fmt.Errorf("%s: previous-output value %d, the bytes carry %d (extended=%v)", what, g.PrevSats, w.PrevSats, ext)
+	case !bytes.Equal(g.PrevScript, w.PrevScript):
+		return fmt.Errorf("%s: previous-output script %s, the bytes carry %s (extended=%v)", what, head(g.PrevScript), head(w.PrevScript), ext)
+	}
+	return nil
+}
+
+// checkElements feeds the inputs and outputs of the case's transactions, one by
+// one, to the exported element decoders: each into a fresh receiver and all of them
+// into ONE receiver that is reused across formats. Every field (incl. the previous
+// output, which only the extended format carries), the bytes reported and the reader
+// position are compared with the reference; a transaction put together from the
+// decoded elements must serialise like the reference says, i.e. like the same
+// elements decoded by the transaction-level decoder.
+func checkElements(ctx *pbt.Ctx, c EP) error {
+	var ins []ref.In
+	var outs []ref.Out
+	for _, m := range append(append([]ref.Tx{}, c.Txs...), c.Dirty) {
+		for _, in := range m.In {
+			if len(ins) < 8 {
+				ins = append(ins, in)
+			}
+		}
+		for _, o := range m.Out {
+			if len(outs) < 8 {
+				outs = append(outs, o)
+			}
+		}
+	}
+	fmts := c.ElemExt
+	if len(fmts) == 0 {
+		fmts = []bool{true, false, false, true}
+	}
+	trail := []byte(c.Trailing)
+	reusedIn := &bt.Input{}
+	var keptIn [][]byte
+	var wantIn [][]byte
+	prevExt, prevHad := false, false
+	for i, in := range ins {
+		for pass, ext := range []bool{fmts[i%len(fmts)], !fmts[i%len(fmts)]} {
+			enc := refInput(in, ext)
+			for _, reuse := range []bool{false, true} {
+				if reuse && pass == 1 {
+					continue // the reused receiver follows the case's format sequence only
+				}
+				recv := &bt.Input{}
+				if reuse {
+					recv = reusedIn
+				}
+				r := bytes.NewReader(append(append([]byte{}, enc...), trail...))
+				what := fmt.Sprintf("Input.ReadFrom%s (reused receiver=%v), input %d", map[bool]string{true: "Extended", false: ""}[ext], reuse, i)
+				var n int64
+				var err error
+				if ext {
+					n, err = recv.ReadFromExtended(r)
+				} else {
+					n, err = recv.ReadFrom(r)
+				}
+				if err != nil {
+					return fmt.Errorf("%s rejected the reference encoding %s: %v", what, head(enc), err)
+				}
+				if n != int64(len(enc)) || r.Len() != len(trail) {
+					return fmt.Errorf("%s reported %d bytes and left %d in the reader; the input has %d bytes and %d follow it", what, n, r.Len(), len(enc), len(trail))
+				}
+				if err := inputIs(what, recv, in, ext); err != nil {
+					return err
+				}
+				// a transaction holding the decoded element serialises as the reference says
+				w := in
+				if !ext {
+					w.PrevSats, w.PrevScript, w.PrevNil = 0, nil, true
+				}
+				holder := &bt.Tx{Version: 1, Inputs: []*bt.Input{recv}}
+				if err := eqBytes(what+": ExtendedBytes() of a transaction holding the decoded input", holder.ExtendedBytes(), ref.Encode(ref.Tx{Version: 1, In: []ref.In{w}}, true)); err != nil {
+					return err
+				}
+				if err := eqBytes(what+": Input.Bytes(false)", recv.Bytes(false), refInput(in, false)); err != nil {
+					return err
+				}
+				if reuse {
+					if prevHad && prevExt && !ext {
+						ctx.Label("element-receiver: standard after extended")
+					}
+					prevExt, prevHad = ext, true
+					keptIn = append(keptIn, recv.Bytes(false))
+					wantIn = append(wantIn, refInput(in, false))
+				}
+			}
+		}
+	}
+	for i := range keptIn {
+		if err := eqBytes(fmt.Sprintf("Input.Bytes(false) taken from the reused receiver after decode %d, looked at after the last decode", i), keptIn[i], wantIn[i]); err != nil {
+			return err
+		}
+	}
+	reusedOut := &bt.Output{}
+	var decoded []*bt.Output
+	for i, o := range outs {
+		enc := refOutput(o)
+		for _, reuse := range []bool{false, true} {
+			recv := &bt.Output{}
+			if reuse {
+				recv = reusedOut
+			}
+			r := bytes.NewReader(append(append([]byte{}, enc...), trail...))
+			what := fmt.Sprintf("Output.ReadFrom (reused receiver=%v), output %d", reuse, i)
+			n, err := recv.ReadFrom(r)
+			if err != nil {
+				return fmt.Errorf("%s rejected the reference encoding %s: %v", what, head(enc), err)
+			}
+			if n != int64(len(enc)) || r.Len() != len(trail) {
+				return fmt.Errorf("%s reported %d bytes and left %d in the reader; the output has %d bytes and %d follow it", what, n, r.Len(), len(enc), len(trail))
+			}
+			if recv.Satoshis != o.Sats || recv.LockingScript == nil || !bytes.Equal(*recv.LockingScript, o.Script) {
+				return fmt.Errorf("%s: decoded value %d / script differ from the encoded %d / %s", what, recv.Satoshis, o.Sats, head(o.Script))
+			}
+			if err := eqBytes(what+": Output.Bytes()", recv.Bytes(), enc); err != nil {
+				return err
+			}
+			if !reuse {
+				decoded = append(decoded, recv)
+			}
+		}
+	}
+	if len(decoded) > 0 {
+		// all fresh outputs in one transaction, looked at after the last decode
+		if err := eqBytes("Bytes() of a transaction holding the outputs decoded one by one", (&bt.Tx{Version: 2, Outputs: decoded}).Bytes(), ref.Encode(ref.Tx{Version: 2, Out: outs}, false)); err != nil {
+			return err
+		}
+	}
+	if len(ins) > 0 {
+		ctx.Label("element-decodes: inputs")
+	}
+	if len(outs) > 0 {
+		ctx.Label("element-decodes: outputs")
+	}
 	return nil
 }
 
@@ -514,7 +719,14 @@ func genEP(t *rapid.T) EP {
 			}
 		}
 	}
-	c.Mut = rapid.SampledFrom([]string{"none", "none", "none", "none", "widen", "widen", "truncate", "bitflip", "byteset"}).Draw(t, "mut")
+	c.Mut = rapid.SampledFrom([]string{"none", "none", "none", "none", "widen", "widen", "truncate", "bitflip", "byteset", "claim", "claim"}).Draw(t, "mut")
+	if c.Mut == "claim" {
+		c.Claim = genClaim(t)
+	}
+	if rapid.IntRange(0, 7).Draw(t, "list_lies") == 0 {
+		c.ListClaim = genClaim(t)
+	}
+	c.ElemExt = rapid.SliceOfN(rapid.Bool(), 1, 6).Draw(t, "elem_ext")
 	c.WTx = rapid.IntRange(0, 3).Draw(t, "wtx")
 	c.Site = rapid.IntRange(0, 12).Draw(t, "site")
 	c.Width = rapid.SampledFrom([]int{3, 5, 9}).Draw(t, "width")
@@ -561,7 +773,7 @@ func TestEntryPoints(t *testing.T) {
 		Name: "entrypoints", Quick: 7000, Thorough: 60000,
 		Gen:      genEP,
 		Check:    checkEP,
-		EnumDesc: "one fixed transaction with its inputs, its outputs or the list of transactions replicated to {252, 253} x {standard, extended} x list count {exact, one fewer, one more} and to {65535, 65536} (standard, exact count)",
+		EnumDesc: "one fixed transaction with its inputs, its outputs or the list of transactions replicated to {252, 253} x {standard, extended} x list count {exact, one fewer, one more} and to {65535, 65536} (standard, exact count); the same transaction with its input count, its output count or the list count announcing each of 18 huge values (2^31 .. 2^64-1, bit 63 set, wrap-around products) x {standard, extended}",
 		Enum: func(tier string, yield func(EP)) {
 			for _, side := range []string{"in", "out", "tx"} {
 				for _, n := range []int{252, 253} {
@@ -573,6 +785,18 @@ func TestEntryPoints(t *testing.T) {
 				}
 				for _, n := range []int{65535, 65536} {
 					yield(epShape(side, n, false, 0))
+				}
+			}
+			for _, cl := range fixedClaims {
+				for _, ext := range []bool{false, true} {
+					for _, site := range []int{0, 2} { // input count, output count
+						c := epShape("in", 1, ext, 0)
+						c.Mut, c.Site, c.Claim = "claim", site, cl
+						yield(c)
+					}
+					c := epShape("out", 1, ext, 0)
+					c.ListClaim = cl
+					yield(c)
 				}
 			}
 		},
